@@ -44,6 +44,9 @@ impl ItemProvider for CrateItemProvider<'_> {
 
 /// Extract annotated items from the documentation of the specified package.
 ///
+/// It returns the annotated items alongside the number of diagnostics that were
+/// emitted while processing the queue.
+///
 /// # Panics
 ///
 /// Panics if [`CrateCollection`] doesn't already contain the JSON docs for the specified package.
@@ -51,16 +54,17 @@ pub(crate) fn process_queue(
     queue: BTreeSet<QueueItem>,
     krate: &Crate,
     diagnostics: &DiagnosticSink,
-) -> AnnotatedItems {
+) -> (AnnotatedItems, usize) {
     let provider = CrateItemProvider { krate };
     let (items, errors) = pavexc_annotations::process_queue(queue, &provider);
 
     // Convert errors to diagnostics
+    let n_diagnostics = errors.len();
     for error in errors {
         emit_annotation_error(error, krate, diagnostics);
     }
 
-    items
+    (items, n_diagnostics)
 }
 
 /// Convert an `AnnotationError` into a diagnostic and emit it.
